@@ -136,6 +136,17 @@ F9 == << (* externally tagged *)
          Doc("F9", "int-shared-name", SOneOf(<< IntVar(<<"a">>, Props1("v", SObj(Props1("p", SInt), {"p"})), {"v"}, FALSE),
                                                  IntVar(<<"b">>, Props1("v", SObj(Props1("q", SStr), {"q"})), {"v"}, FALSE) >>)),
          Doc("F9", "int-unit", SOneOf(<< IntVar(<<"a">>, << >>, {}, FALSE), IntVar(<<"b">>, Props1("y", SInt), {"y"}, FALSE) >>)),
+         (* several candidate tag properties (each variant has more than one constant-valued member) *)
+         Doc("F9", "int-two-tags", SOneOf(<<
+              SObj(Props3("kind", Tag(<<"a">>), "type", Tag(<<"x">>), "v", SInt), {"kind", "type", "v"}),
+              SObj(Props2("kind", Tag(<<"b">>), "type", Tag(<<"y">>)), {"kind", "type"}) >>)),
+         Doc("F9", "int-three-tags", SOneOf(<<
+              SObj(Props3("kind", Tag(<<"a">>), "type", Tag(<<"x">>), "zeta", Tag(<<"p">>)), {"kind", "type", "zeta"}),
+              SObj(Props3("kind", Tag(<<"b">>), "type", Tag(<<"y">>), "zeta", Tag(<<"q">>)), {"kind", "type", "zeta"}) >>)),
+         (* tuple variants whose payload is not Copy / Eq / Hash *)
+         Doc("F9", "ext-tuple-float", SOneOf(<< EnumS(<<JS(<<"N","o","n","e">>)>>), ExtVar("Pair", STuple(<<SNum, SStr>>)) >>)),
+         Doc("F9", "ext-tuple-only", SOneOf(<< ExtVar("A", STuple(<<SStr, SInt>>)), ExtVar("B", STuple(<<SNum, SNum>>)) >>)),
+         Doc("F9", "untagged-tuples", SOneOf(<< STuple(<<SStr, SNum>>), SInt >>)),
          (* adjacently tagged *)
          Doc("F9", "adj", SOneOf(<< AdjVar(<<"a">>, SInt), AdjVar(<<"b">>, SObj(Props1("q", SStr), {"q"})) >>)),
          Doc("F9", "adj-unit", SOneOf(<< SObjClosed(Props1("t", Tag(<<"u">>)), {"t"}), AdjVar(<<"b">>, SArr(SInt)) >>)),
